@@ -81,6 +81,7 @@ theorem inv_step (r : Bool) (s : ClientState) (a : ClientAct) (h : Inv s)
   | connectRefused => exact ⟨h1, h2, h3, h4⟩
   | opOk => exact ⟨h1, h2, h3, h4⟩
   | opRaises => exact ⟨h1, h2, h3, h4⟩
+  | foreign => exact ⟨h1, h2, h3, h4⟩
   | disconnect =>
     simp only [clientStep, clientDisconnect]
     cases hc : s.current with
@@ -165,6 +166,15 @@ theorem refused_connect (r : Bool) (s : ClientState) : clientStep r s .connectRe
 /-- the client can connect again afterwards -/
 theorem reconnect (r : Bool) (s : ClientState) : (clientStep r (clientStep r s .disconnect).1 .connectOk).1.connected = true := by
   simp [clientStep, clientConnect]
+
+/-- what another client object does (to the same device or any other) changes nothing about this one: its flag, its writer and its
+    sockets are what they were, and the run with those actions left out ends in the same state -/
+theorem foreign_is_invisible (r : Bool) (s : ClientState) (as : List ClientAct) :
+    (clientRunActs r s as).1 = (clientRunActs r s (as.filter (· ≠ .foreign))).1 := by
+  induction as generalizing s with
+  | nil => rfl
+  | cons a as ih =>
+    cases a <;> simp [clientRunActs, clientStep] <;> simpa using ih _
 
 /-- an operation (successful or raising) never changes the connection state -/
 theorem op_keeps_state (r : Bool) (s : ClientState) : (clientStep r s .opOk).1 = s ∧ (clientStep r s .opRaises).1 = s := ⟨rfl, rfl⟩
